@@ -5,7 +5,9 @@
 //! The composite methods (binary/unary expression, expression list, function call, array
 //! subscript, poetic number literal) are deliberately left to the library.
 
+use std::cell::{Cell, RefCell};
 use std::panic::{catch_unwind, AssertUnwindSafe};
+use std::rc::Rc;
 
 use rrss::analysis::visit::{Combine, ExprVisitorRunner, Result, Visit, VisitExpr, VisitProgram};
 use rrss::frontend::ast::*;
@@ -24,17 +26,21 @@ impl Combine for Ids {
     }
 }
 
+/// The recorder's state is shared with the caller, so that ONE runner can be used for several
+/// walks (`walkseq`): the library offers no mutable access to a runner's visitor.
+#[derive(Clone, Default)]
 struct Recorder {
-    events: Vec<String>,
-    fail_at: Option<usize>,
+    events: Rc<RefCell<Vec<String>>>,
+    fail_at: Rc<Cell<Option<usize>>>,
 }
 
 impl Recorder {
     /// Appends the event; its index is the failure if it is the chosen one.
     fn event(&mut self, ev: impl Into<String>) -> std::result::Result<usize, usize> {
-        let i = self.events.len();
-        self.events.push(ev.into());
-        if self.fail_at == Some(i) {
+        let mut events = self.events.borrow_mut();
+        let i = events.len();
+        events.push(ev.into());
+        if self.fail_at.get() == Some(i) {
             Err(i)
         } else {
             Ok(i)
@@ -161,10 +167,26 @@ fn join<T: ToString>(items: &[T]) -> String {
 
 /// Response of `walk`: `ok EV,… | I,…`, `err F EV,…` or `crash`.
 pub fn walk(program: &Program, fail_at: Option<usize>) -> String {
+    walk_seq(program, fail_at, 0, fail_at)
+}
+
+/// `walkseq`: ONE runner walks the program `times` times with the callback `warm_fail` failing,
+/// then once more with `fail_at`; the answer describes the last walk only (a runner carries no
+/// state from one walk to the next).
+pub fn walk_seq(program: &Program, warm_fail: Option<usize>, times: usize, fail_at: Option<usize>) -> String {
     let run = catch_unwind(AssertUnwindSafe(|| {
-        let mut runner = ExprVisitorRunner::with_inner(Recorder { events: Vec::new(), fail_at });
+        let rec = Recorder::default();
+        let mut runner = ExprVisitorRunner::with_inner(rec.clone());
+        for _ in 0..times {
+            rec.events.borrow_mut().clear();
+            rec.fail_at.set(warm_fail);
+            let _ = runner.visit_program(program);
+        }
+        rec.events.borrow_mut().clear();
+        rec.fail_at.set(fail_at);
         let result = runner.visit_program(program);
-        (result, runner.inner().events)
+        let events = rec.events.borrow().clone();
+        (result, events)
     }));
     match run {
         Ok((Ok(ids), events)) => format!("ok {} | {}", join(&events), join(&ids.0)),
